@@ -42,6 +42,6 @@ ASSUME PrintT(ToJson([k |-> "scenario", which |-> Which, cfg |-> KCfg, mem0 |-> 
                       ops |-> [ s \in 1 .. Len(KOps) |-> [ i \in 1 .. Len(KOps[s]) |->
                                  [r |-> KOps[s][i], fb |-> FrameBytes(KCfg, Frame(s, KOps[s][i]))] ] ]]))
 \* thread schedules: session `f' runs `a' scheduling points, then session `g' runs `b' points (99 = to completion), then the rest
-Schedules == { <<f, a, g, b>> : f \in 1 .. Len(KOps), a \in 0 .. 60, g \in 1 .. Len(KOps), b \in {1, 2, 3, 4, 6, 9, 14, 99} }
+Schedules == { <<f, a, g, b>> : f \in 1 .. Len(KOps), a \in 0 .. 80, g \in 1 .. Len(KOps), b \in (1 .. 16) \cup {99} }
 ASSUME PrintT(ToJson([k |-> "schedules", s |-> { x \in Schedules : x[1] # x[3] }]))
 =============================================================================
